@@ -95,7 +95,8 @@ func driveFile(b []byte, pattern string) fileOutcome {
 		return out
 	}
 	r := &fileOutcome{}
-	fin := mc.WithTimeout(HangGuard, func() {
+	guard, third := guardFor(b)
+	fin := mc.WithTimeout(guard, func() {
 		var d *deb.Deb
 		var closer deb.Closer
 		var err error
@@ -150,6 +151,10 @@ func driveFile(b []byte, pattern string) fileOutcome {
 		}
 	})
 	if !fin {
+		if third {
+			atomic.AddInt64(&slowThirdParty, 1)
+			return fileOutcome{loadOutcome: loadOutcome{Res: "slow"}}
+		}
 		atomic.AddInt64(&hangs, 1)
 		return fileOutcome{loadOutcome: loadOutcome{Res: "hang"}}
 	}
@@ -169,6 +174,8 @@ func evalFile(b []byte, pattern string) (fs []finding, class string) {
 	switch o.Res {
 	case "scratch-error":
 		return nil, "loadfile not run: " + o.msg
+	case "slow":
+		return nil, "loadfile slow-third-party-decoder: no verdict"
 	case "hang":
 		add(finding{"terminates", "deb.LoadFile returns", fmt.Sprintf("deb.LoadFile has not returned after %v on a %d-byte file", HangGuard, len(b))})
 		return
@@ -194,6 +201,9 @@ func evalFile(b []byte, pattern string) (fs []finding, class string) {
 	}
 	// same package as deb.Load on the same bytes
 	l := driveLoad(b, 0)
+	if l.Res == "slow" {
+		return fs, "loadfile slow-third-party-decoder: no verdict"
+	}
 	if l.Res == "hang" {
 		return // reported by the load scenarios
 	}
